@@ -44,13 +44,26 @@ pub fn unhex(s: &str) -> String {
     String::from_utf8(b).expect("input hex must be UTF-8")
 }
 
+/// A parse whose event log outgrows this is not terminating in any useful sense (the reference evaluation of the largest
+/// admitted case produces a few MB); it is stopped the same way as a parse that runs out of logical steps.
+pub const LOG_CAP: usize = 64 << 20;
+
 #[inline]
 pub fn logline(f: impl FnOnce(&mut String)) {
-    LOG.with(|l| {
+    let over = LOG.with(|l| {
         let mut l = l.borrow_mut();
         f(&mut l);
         l.push('\n');
+        l.len() > LOG_CAP
     });
+    if over {
+        LOG.with(|l| {
+            let mut l = l.borrow_mut();
+            l.truncate(LOG_CAP / 2);
+            l.push_str("\nZ truncated\n");
+        });
+        panic!("step budget exhausted (event log larger than {} bytes)", LOG_CAP);
+    }
 }
 
 pub fn take_log() -> String {
